@@ -286,6 +286,19 @@ func c19(c *Ctx) {
 		}
 	}
 
+	// two key exchanges (two clients, two data centres) draw their secrets at the same time: no generator keeps
+	// its bytes in package-level storage
+	r.Rule("R19.G", "nothing reachable from the secret generators (RandomInt128/256, MakeGAB, GetInputCheckPassword) writes a package-level variable or the storage of one", 1)
+	{
+		var entries []*ssa.Function
+		for _, e := range []struct{ pkg, name string }{{load.TLPkg, "RandomInt128"}, {load.TLPkg, "RandomInt256"}, {load.MathPkg, "MakeGAB"}, {load.SrpPkg, "GetInputCheckPassword"}} {
+			if f := c.P.Func(e.pkg, "", e.name); f != nil {
+				entries = append(entries, f)
+			}
+		}
+		c.noGlobalWrites("R19.G", entries, "a secret's path: concurrent exchanges would share it")
+	}
+
 	// R19.U use sites in makeAuthKey
 	if mk := c.fn("R19.U", load.RootMod, "*MTProto", "makeAuthKey"); mk != nil {
 		tr := an.NewTracer()
